@@ -152,6 +152,11 @@ func cmdCheck(args []string) int {
 			skipped = append(skipped, hc.H)
 			continue
 		}
+		if cap := os.Getenv("VERIF_HARNESS_TIMEOUT"); cap != "" {
+			if d, err := time.ParseDuration(cap); err == nil && d < to {
+				to = d
+			}
+		}
 		h := e.RunHarness(hc.H, hc.MaxPaths, to)
 		runs = append(runs, h)
 		fmt.Fprintf(os.Stderr, "[%s] %s: paths=%d completed=%d pruned=%d violations=%d wall=%.1fs queries=%d\n",
